@@ -6,6 +6,7 @@ import (
 	"encoding/json"
 	"fmt"
 	"os"
+	"path/filepath"
 	"strings"
 	"time"
 
@@ -18,8 +19,18 @@ import (
 // started again on the same directory; everything the killed process had acknowledged must be
 // there - the linked wallets and their balances, the node counts, and every accepted nonce (the
 // very same requests, sent again, are refused).
-func c13BinaryRestart() vh.Unit {
-	return vh.Unit{Name: "wire/binary-kill-restart", Run: func(u *vh.U) {
+func c13BinaryRestart() vh.Unit { return c13BinaryRestartMode("datadir") }
+
+// mode "datadir": --datadir given. mode "default-dir": no --datadir, the data directory is the
+// binary's default under $HOME (only the longest session). mode "unusable-home": no --datadir and a
+// HOME under which nothing can be created: a pool that cannot keep what it acknowledges must not
+// serve at all - if it does come up, what it acknowledged must still survive the restart.
+func c13BinaryRestartMode(mode string) vh.Unit {
+	name := "wire/binary-kill-restart"
+	if mode != "datadir" {
+		name += "/" + mode
+	}
+	return vh.Unit{Name: name, Run: func(u *vh.U) {
 		ids := vh.Identities()
 		client, host, w1, w2 := ids[0], ids[1], ids[3], ids[4]
 		type step struct {
@@ -42,11 +53,29 @@ func c13BinaryRestart() vh.Unit {
 			{name: "wallet 2 links the host", call: func() vh.Call { return vh.NewCall("pool_addNode", w2, vh.WireNonce(), host.NodeID) }},
 			{name: "third keep-alive 1.5 s later (bills the wallets)", ws: true, call: upd, gap: 1500 * time.Millisecond},
 		}
-		for kill := 1; kill <= len(steps); kill++ {
+		first := 1
+		if mode != "datadir" {
+			first = len(steps)
+		}
+		for kill := first; kill <= len(steps); kill++ {
 			dir := vh.Scratch("c13bin-")
+			start := func() (*vh.PoolProc, error) { return vh.StartPoolArgs("--store=persist", "--datadir", dir) }
+			switch mode {
+			case "default-dir":
+				start = func() (*vh.PoolProc, error) { return vh.StartPoolHome(dir, "--store=persist") }
+			case "unusable-home":
+				notADir := filepath.Join(dir, "file")
+				os.WriteFile(notADir, []byte("x"), 0600)
+				start = func() (*vh.PoolProc, error) { return vh.StartPoolHome(notADir, "--store=persist") }
+			}
 			func() {
 				defer os.RemoveAll(dir)
-				p, err := vh.StartPoolArgs("--store=persist", "--datadir", dir)
+				p, err := start()
+				if err != nil && mode == "unusable-home" {
+					u.Observe("unusable home: the pool refuses to start")
+					wireStep(u)
+					return
+				}
 				if err != nil {
 					u.R.Infra = err.Error()
 					return
@@ -128,7 +157,7 @@ func c13BinaryRestart() vh.Unit {
 				hws.Close()
 				p.Stop() // SIGKILL of the process group: no Close, no flush
 				stopped = true
-				p2, err := vh.StartPoolArgs("--store=persist", "--datadir", dir)
+				p2, err := start()
 				if err != nil {
 					u.Violate("wire/restart-failed", fmt.Sprintf("killed after %q: the pool does not come up again on its data directory: %v", names[len(names)-1], err), nil)
 					return
